@@ -43,6 +43,37 @@ CHECKS = {
         technique="TLA+ Store.tla model-checked by TLC; TLC-generated histories with Gc steps replayed on both backends; traces validated by TLC"),
 }
 
+QUERY_NOTE = ("Trusted: TLC; SQLite; liblmdb through the ctypes shim; pydantic's validation as part of the relay under test. The string "
+              "domain of filter values is sampled by palettes (quotes/backslashes, SQL and Python metacharacters, NUL and control "
+              "characters, non-BMP and bidi code points), not enumerated; the filter grammar is instantiated by the Python driver over "
+              "the universe's symbols, every answer is judged by TLC. PostgreSQL and full-text search are not exercisable here.")
+
+CHECKS.update({
+    "C01": dict(
+        cat="exploration", ref="DESIGN.md §5 C01", note=QUERY_NOTE,
+        text=("Every answer of the REQ path (storage.subscribe ... EOSE) to every filter of a grammar over the universe's own and "
+              "foreign symbols, under four to six palettes of hostile strings and including a grammar of malformed filters (every JSON "
+              "type at every field, hostile tag names, odd keys, non-dict filters), is recorded as a Query line and TLC evaluates "
+              "Query.tla's Sound on it against the store the trace established (only stored events, each matching a live filter; a "
+              "dropped/degenerate filter may contribute nothing). Exploration level: the input language is sampled, the judge is the spec."),
+        technique="TLA+ Query.tla (Sound) evaluated by TLC on recorded answers of the real REQ path; grammar + palette driven exploration"),
+    "C02": dict(
+        cat="model_checking", ref="DESIGN.md §5 C02", note=QUERY_NOTE,
+        text=("Complete and Multiplicity of Query.tla are evaluated by TLC on every answer to the whole filter grammar (all one- and "
+              "two-field conjunctions x time windows at grid-1/grid/grid+1, a seeded sample of 3/4-field conjunctions, 2-5 filter "
+              "REQs) over several histories of a universe crafted for byte-order hazards (ids starting ff/00, equal timestamps, tag "
+              "values that are prefixes of one another, quote/backslash tag names, a delegated, a replaced and a deleted event) on both "
+              "backends; the LMDB planner's index choice is covered for ids, created_at, kinds, authors, author+kind, tags and chained "
+              "multi-index plans."),
+        technique="TLA+ Query.tla (Complete, Multiplicity) evaluated by TLC on recorded answers to an enumerated filter grammar on both backends"),
+    "C12": dict(
+        cat="model_checking", ref="DESIGN.md §5 C12", note=QUERY_NOTE,
+        text=("With max_limit=3 configured before import, every filter of the grammar x limits {absent,0,1,2,3,4,10^9} and multi-filter "
+              "REQs are answered through the subscription path; TLC evaluates LimitOK of Query.tla (existential attribution of delivered "
+              "items to filters, at most min(limit,max_limit) per filter, no left-out matching event newer than a sent one) on every answer."),
+        technique="TLA+ Query.tla (LimitOK) evaluated by TLC on recorded answers with max_limit=3 on both backends"),
+})
+
 NOT_YET = {}
 
 
